@@ -484,7 +484,9 @@ def _settings_once(n, seed, binary, attempt):
     try:
         exp_udp = {bound(d.proto(p)["addr"], d.proto(p)["port"]) for p in PNAMES if d.proto(p)["enabled"]}
         exp_tcp = {bound(E["stats-http-addr"], E["stats-http-port"])} if E["stats-enabled"] else set()
-        # ---- wait until the process shows the expected sockets, has ended, or has settled on other sockets
+        # ---- wait until every listener has reported (running / disabled) and the process shows the expected sockets, or has
+        #      ended, or has settled on other sockets. (The expected sockets alone are not the end of the start: a listener that
+        #      should not exist may come last.) Without a statistics server to wait for, the sockets are looked at again 0.3 s later.
         t0 = time.time()
         last, stable_since, snap = None, t0, None
         while True:
@@ -492,14 +494,14 @@ def _settings_once(n, seed, binary, attempt):
             if rc is not None:
                 break
             snap = proc_sockets(proc.pid)
-            if snap == (exp_udp, exp_tcp):
-                break
             now = time.time()
             if snap != last:
                 last, stable_since = snap, now
             lg = logs()
             accounted = sum(lg.count(p[3]) + lg.count(p[4]) for p in PROTOS) >= 4
             stats_line = "starting stats http server" in lg or "starting prometheus http server" in lg
+            if snap == (exp_udp, exp_tcp) and accounted and (exp_tcp or now - stable_since > 0.3):
+                break
             if accounted and now - stable_since > 1.5 and (stats_line or now - t0 > 5):
                 break
             if now - t0 > 25:
@@ -715,6 +717,9 @@ def _settings_once(n, seed, binary, attempt):
         if any(w in lg for w in ("panic:", "fatal error")):
             i = max(lg.find("panic:"), lg.find("fatal error"))
             return "crashed", "fail:crash the collector crashed: " + lg[max(0, i - 100):i + 500].replace("\n", " | "), d.sample(True)
+        if mism and rc != 0:
+            # a setting already seen to differ explains more than the way the stop went wrong
+            return "mismatch " + mism[0][0], verdict() + " [and the stop: %s]" % ("no exit within 25 s of SIGTERM" if rc == "timeout" else "exit status %s" % rc), d.sample(True)
         if rc == "timeout":
             return "exit=timeout", "fail:latency no exit within 25 s of SIGTERM", d.sample(True)
         if rc != 0:
@@ -738,6 +743,10 @@ def _settings_once(n, seed, binary, attempt):
         n_dyn = sum(lg.count(p[5]) for p in PROTOS)
         if n_dyn != (0 if E["dynamic-workers"] else n_on):
             mism.append(("dynamic-workers", "reported %d of %d listeners without dynamic workers" % (n_dyn, n_on)))
+        started_stats = "restful" if "starting stats http server" in lg else "prometheus" if "starting prometheus http server" in lg else None
+        if started_stats != (E["stats-format"] if E["stats-enabled"] else None) and not any(m[0].startswith("stats-") for m in mism):
+            mism.append(("stats-enabled" if (started_stats is None) == E["stats-enabled"] else "stats-format",
+                         "started %s" % ("the %s statistics server" % started_stats if started_stats else "no statistics server")))
         if "producer message queue has been disabled" not in lg:
             mism.append(("producer-enabled", "did not disable the producer"))
         if "RPC has been disabled" in lg or "ipfix RPC enabled" in lg:
